@@ -8,17 +8,21 @@ import (
 	"fmt"
 	"net"
 	"net/url"
+	"path"
 	"sort"
 	"strconv"
 	"strings"
 	"testing"
 
+	cidlink "github.com/ipld/go-ipld-prime/linking/cid"
+	"github.com/ipni/go-libipni/dagsync/ipnisync"
 	"github.com/ipni/go-libipni/maurl"
 	"github.com/ipni/go-libipni/mautil"
 	"github.com/libp2p/go-libp2p/core/peer"
 	"github.com/multiformats/go-multiaddr"
 	"github.com/multiformats/go-varint"
 
+	"verifharness/fixture"
 	"verifharness/vp"
 )
 
@@ -212,7 +216,7 @@ func hostKind(h string) string {
 
 func TestCheck(t *testing.T) {
 	r := vp.New("C20", "exploration",
-		"URL round trip: nested loops over scheme x host x port x path (paths: every sequence of <=N symbols over all printable ASCII characters, 'é', '%2F', '%25', '//' after a leading '/'); URLs given as text and parsed with net/url: every printable ASCII character and 'é' written as a percent-escape in upper- and lower-case hex, alone, inside segments and in ordered pairs (the decoded path is what has to survive); a case is non-trivial when it has a port or a path; distinct = distinct (scheme,host,port,path). Helpers: ParsePeers for every list of <=4 over seven (address, peer) pairs of three peers against an independent grouping, with the URLs recovered from each peer's HTTP addresses; FindHTTPAddrs for every address made of 6 prefixes x {http, https, ws, wss, none} x every sequence of <=3 trailing components over {http-path (2 values), p2p, p2p-circuit}, alone and in 3 list shapes; every list of length <=4 over a 27-address alphabet (public, private, loopback, unspecified, localhost; the IP followed by tcp, udp, sctp, tls, http or nothing; http after tls/sni and before /p2p; ws / wss, which are not http) incl. nil and duplicates, all pairs of lists of length <=3 for equality; what FindHTTPAddrs and FilterPublic selected must read the same after the caller has overwritten its own list.",
+		"URL round trip: nested loops over scheme x host x port x path (paths: every sequence of <=N symbols over all printable ASCII characters, 'é', '%2F', '%25', '//' after a leading '/'); URLs given as text and parsed with net/url: every printable ASCII character and 'é' written as a percent-escape in upper- and lower-case hex, alone, inside segments and in ordered pairs (the decoded path is what has to survive); a case is non-trivial when it has a port or a path; distinct = distinct (scheme,host,port,path). The addresses a publisher advertises when configured with listen URLs (5 host/scheme forms) and a handler path (11 paths with spaces, plus signs, several segments, non-ASCII) convert back to the configured endpoint. Helpers: ParsePeers for every list of <=4 over seven (address, peer) pairs of three peers against an independent grouping, with the URLs recovered from each peer's HTTP addresses; FindHTTPAddrs for every address made of 6 prefixes x {http, https, ws, wss, none} x every sequence of <=3 trailing components over {http-path (2 values), p2p, p2p-circuit}, alone and in 3 list shapes; every list of length <=4 over a 27-address alphabet (public, private, loopback, unspecified, localhost; the IP followed by tcp, udp, sctp, tls, http or nothing; http after tls/sni and before /p2p; ws / wss, which are not http) incl. nil and duplicates, all pairs of lists of length <=3 for equality; what FindHTTPAddrs and FilterPublic selected must read the same after the caller has overwritten its own list.",
 		"URLs are built as url.URL{Scheme,Host,Path} values, and (section 2b) parsed from text; hosts are limited to 3 IPv4, 3 IPv6 (no zone, not v4-mapped) and 3 DNS names",
 		"IPv6 hosts are compared as IP values, not as text",
 		"FilterPublic: link-local and other special ranges that are neither loopback, private (net.IP.IsPrivate) nor unspecified are accepted either way; nothing is required of nil entries",
@@ -580,7 +584,11 @@ func checkParsePeers(r *vp.Recorder) {
 			r.Violation("ParsePeers:error", key, fmt.Sprintf("ParsePeers(%q): %v", in, err), nil)
 			continue
 		}
-		canon := func(l []string) string { c := append([]string(nil), l...); sort.Strings(c); return strings.Join(c, " ") }
+		canon := func(l []string) string {
+			c := append([]string(nil), l...)
+			sort.Strings(c)
+			return strings.Join(c, " ")
+		}
 		seen := map[string]bool{}
 		bad := ""
 		for _, ai := range got {
@@ -626,7 +634,66 @@ func checkParsePeers(r *vp.Recorder) {
 	}
 }
 
+// checkPublisherAddrs: where the conversion is used to advertise: a publisher
+// that is handed its public URLs and a handler path (WithHTTPListenAddrs +
+// WithHandlerPath, no server of its own) advertises multiaddrs which, turned
+// back into URLs, name the endpoint it was configured with: scheme, host, port
+// and the handler path. Listen URLs over host kinds and schemes x handler
+// paths over unreserved characters, spaces, plus signs, several segments.
+func checkPublisherAddrs(r *vp.Recorder) {
+	listens := []struct{ in, scheme, host string }{
+		{"http://203.0.113.5:3104", "http", "203.0.113.5:3104"},
+		{"https://pub.example.org:8443", "https", "pub.example.org:8443"},
+		{"http://[2001:db8::7]:80", "http", "[2001:db8::7]:80"},
+		{"https://pub.example.org", "https", "pub.example.org"},
+		{"http://pub.example.org/", "http", "pub.example.org"},
+	}
+	paths := []string{"ipni", "/ipni/", "a/b/c", "my ads", "a b/c d", "v1+2", "a+b c", "x-y_z.~", "é", "//double//", "Ümlaut/ö"}
+	key0 := fixture.Key("ed25519", 0)
+	for li, l := range listens {
+		for pi, hp := range paths {
+			key := fmt.Sprintf("publisher-addrs|%d|%d", li, pi)
+			if !r.Mine(key) {
+				continue
+			}
+			r.Eval(key, true)
+			lsys := cidlink.DefaultLinkSystem()
+			var pub *ipnisync.Publisher
+			var err error
+			if p, m := vp.Guard(func() {
+				pub, err = ipnisync.NewPublisher(lsys, key0.Priv, ipnisync.WithHTTPListenAddrs(l.in), ipnisync.WithHandlerPath(hp), ipnisync.WithStartServer(false))
+			}); p {
+				r.Violation("publisher-addrs:panic", key, m, nil)
+				continue
+			}
+			if err != nil {
+				r.Outcome("publisher-refused")
+				continue
+			}
+			addrs := pub.Addrs()
+			pub.Close()
+			if len(addrs) != 1 {
+				r.Violation("publisher-addrs:count", key, fmt.Sprintf("listen %q handler path %q: %d addresses advertised", l.in, hp, len(addrs)), nil)
+				continue
+			}
+			u, err := maurl.ToURL(addrs[0])
+			if err != nil {
+				r.Violation("publisher-addrs:not-a-url", key, fmt.Sprintf("listen %q handler path %q: advertised %s does not convert to a URL: %v", l.in, hp, addrs[0], err), nil)
+				continue
+			}
+			wantPath := strings.Trim(path.Clean("/"+hp), "/")
+			gotPath := strings.Trim(u.Path, "/")
+			if u.Scheme != l.scheme || u.Host != l.host || gotPath != wantPath {
+				r.Violation("publisher-addrs:advertised-endpoint-is-not-the-configured-one", key, fmt.Sprintf("listen %q handler path %q: advertised %s, i.e. %s (path %q); configured scheme %s host %s path %q", l.in, hp, addrs[0], u, u.Path, l.scheme, l.host, wantPath), nil)
+				continue
+			}
+			r.Outcome("publisher-addrs-ok")
+		}
+	}
+}
+
 func checkHelpers(r *vp.Recorder) {
+	checkPublisherAddrs(r)
 	checkHTTPPosition(r)
 	checkParsePeers(r)
 	n := len(addrAlphabet)
